@@ -143,6 +143,11 @@ func (x *fx) execute(loopWrites map[int]*loopInfo) {
 		x.assumeFnSpec(pname, spec)
 	}
 	env0 := x.paramEnv(x.entryMem)
+	// definitional axioms (assumed, not owed by callers)
+	for _, cl := range x.c.Axiomatize {
+		x.assume(x.evalBool(cl.E, env0))
+		x.assumptions["definitional axiom assumed in "+x.c.Name+": "+cl.Src] = true
+	}
 	// requires
 	for _, cl := range x.c.Requires {
 		v := x.evalBool(cl.E, env0)
@@ -1037,11 +1042,31 @@ func (x *fx) convert(i *ssa.Convert) {
 	}
 }
 
-func (x *fx) makeInterface(i *ssa.MakeInterface) {
-	v := x.valOf(i.X)
-	if len(v.Path) > 0 {
-		panic(unsupported("interface of interior pointer"))
+// materialize turns a pointer into a sub-object (field of a heap struct) into
+// an opaque first-class pointer.  Only in abstracted mode: the pointer can then
+// only flow to unmodelled callees, which havoc memory anyway.
+func (x *fx) materialize(v *Val) *Val {
+	if len(v.Path) == 0 {
+		return v
 	}
+	x.needAbstract("interior pointer escapes (treated as an opaque pointer)")
+	key := ""
+	for _, pe := range v.Path {
+		if pe.IsIdx {
+			key += ".idx"
+		} else {
+			key += "." + pe.Name
+		}
+	}
+	fn := "|interior" + sanitize(key) + "|"
+	x.declareFun(fn, []string{"Ptr"}, "Int")
+	r := fmt.Sprintf("(mk-ptr (%s %s) %s)", fn, v.S, x.idxConst(0))
+	x.assume(fmt.Sprintf("(and (> (%s %s) 0) (< (%s %s) %s))", fn, v.S, fn, v.S, x.curTop()))
+	return &Val{T: v.T, S: r}
+}
+
+func (x *fx) makeInterface(i *ssa.MakeInterface) {
+	v := x.materialize(x.valOf(i.X))
 	id := x.g.typeID(i.X.Type())
 	s := x.sortOf(i.X.Type())
 	box, unbox := x.boxFuns(s)
